@@ -14,7 +14,7 @@ lazy_static! {
 pub(crate) fn create(lhs: InstructionWithStr) -> Result<Instruction, Error> {
     let op = UnaryOperator::Collect;
     let return_type = lhs.return_type();
-    if !can_be_used(&return_type) {
+    if !can_be_used(&return_type) || return_type.iter_element().is_none() {
         return Err(Error::IncorectUnaryOperatorOperand {
             ins: lhs.str,
             op,
